@@ -110,7 +110,21 @@ def handle : Handler := fun op inp impl => do
       if w.wl.isSome then "wl" else "nowl", if w.br.isSome then "br" else "nobr",
       if w.ro.hasTraffic then "traffic" else "notraffic", match w.ro.style with | .canary => "canary" | .blueGreen => "blueGreen"]
     let implPanic := (jopt impl "panic").isSome
-    let holds := [("C09.rollout_no_panic", !implPanic || RV.Oracle.RolloutSM.corrupted w)]
+    let mut holds := [("C09.rollout_no_panic", !implPanic || RV.Oracle.RolloutSM.corrupted w)]
+    -- oracles on the implementation's resulting world
+    if !implPanic then
+      match jopt impl "w" with
+      | some iw =>
+        let gone := (jopt iw "ro").isNone
+        let roJ := jgetD iw "ro" .null
+        let ro' ← (if gone then pure w.ro else roOfJson roJ)
+        let wl' ← (match jopt iw "wl" with | none => pure none | some x => do pure (some (← wlOfJson x)))
+        let br' ← (match jopt iw "br" with | none => pure none | some x => do pure (some (← brOfJson x)))
+        let w' : World := { ro := ro', wl := wl', br := br', net := ← netOfJson (← jget iw "net"), mem := ← memOfJson (← jget iw "mem") }
+        let r : StepResult := { w := w', roGone := gone, requeue := ← fBool impl "requeue", err := ← fBool impl "err",
+                                writes := if w'.br == w.br && w'.net == w.net && w'.wl == w.wl then [] else ["changed"] }
+        holds := holds ++ RV.Oracle.RolloutSM.stepOracles w r
+      | none => pure ()
     match reconcile w with
     | .panic => return { model := mkObj [("panic", strJ "?")], holds := holds, tags := "panic" :: tags }
     | .val r =>
